@@ -40,6 +40,7 @@ enum
 
 class PrimeSieve
 {
+  PRIMESIEVE_VERIF_FRIEND
 public:
   PrimeSieve();
   PrimeSieve(ParallelSieve*);
